@@ -38,6 +38,39 @@ Definition check_unbatchify (c : unbatchify_case) : Z :=
     end
   end.
 
+(* ---- the same two checks with row tags of type N.  The models are polymorphic in the row type, so the tags
+   can travel as binary numbers: a [nat] literal is unary, and a case with L rows tagged 0..L-1 costs ~L^2/2
+   constructors to parse and type-check (L = 2744: 45 s and 2.9 GB for ONE case; with N tags 1.3 s).  Only
+   the tags change type; dimensions, factors and the row arithmetic [r mod B] stay in nat. ---- *)
+Definition eq_Nlist (a b : list N) : bool :=
+  (length a =? length b) && forallb (fun p => N.eqb (fst p) (snd p)) (combine a b).
+Definition eq_optN (a b : option N) : bool :=
+  match a, b with Some x, Some y => N.eqb x y | None, None => true | _, _ => false end.
+
+Definition batchify_caseN := (list Z * list N * list N)%type.
+Definition check_batchifyN (c : batchify_caseN) : Z :=
+  match c with (shape, x, out) =>
+    let m := batchify shape x in
+    if negb (length m =? length out) then 1%Z
+    else if negb (eq_Nlist m out) then 2%Z
+    else if negb (forallb (fun r => eq_optN (nth_error out r) (nth_error x (r mod length x))) (seq 0 (length out))) then 3%Z
+      else 0%Z
+  end.
+
+Definition unbatchify_caseN := (list Z * list N * option (list nat * list N))%type.
+Definition check_unbatchifyN (c : unbatchify_caseN) : Z :=
+  match c with (shape, x, obs) =>
+    match unbatchify shape (rows_of x), obs with
+    | None, None => 0%Z
+    | None, Some _ => 11%Z
+    | Some _, None => 12%Z
+    | Some u, Some (dims, fl) =>
+        if negb (eq_natlist (dims_of u) dims) then 13%Z
+        else if negb (eq_Nlist (flat u) fl) then 14%Z
+        else if negb (eq_Nlist (flat (rebatchify_nat (posfactors shape) u)) x) then 15%Z else 0%Z
+    end
+  end.
+
 (* ---- gather_by_index(unbatchify(x, shape), idx, dim=idx.dim())  (shape = [n]: unbatchify_and_gather) ---- *)
 Definition gather_case := (list Z * list nat * nest nat * option (list nat * list nat))%type.
 Definition check_gather (c : gather_case) : Z :=
